@@ -9,6 +9,8 @@
 """
 import asyncio
 import contextvars
+import os
+import sys
 import threading
 from typing import Any, Callable, Dict, List, Optional
 
@@ -188,6 +190,49 @@ class ThreadSched:
             th.join(timeout=10)
         if self.errors:
             raise self.errors[0]
+
+
+class PreemptSched(ThreadSched):
+    """Thread-like tasks that are also preempted *inside library code*: every task thread traces the lines executed
+    in the icontract package and, with probability q at each of them, hands the baton back to the scheduler.  The
+    specification's turn (silent library steps up to the next crossing) is thereby split at arbitrary lines; the
+    recorded log must still be a behaviour of the specification (the library keeps no state shared between flows, so
+    the split turns commute) -- a shared structure updated by check-then-act would show up as a rejected trace."""
+
+    def __init__(self, rt: Runtime, choose: Callable[[List[int], int], int], prng: Any, q: float = 0.15) -> None:
+        super().__init__(rt, choose)
+        self.prng = prng
+        self.q = q
+        self.libdir = os.path.dirname(os.path.abspath(rt.ic.__file__)) + os.sep
+        self.preemptions = 0
+
+    def _global_trace(self, frame: Any, event: str, arg: Any) -> Any:
+        if frame.f_code.co_filename.startswith(self.libdir):
+            return self._local_trace
+        return None
+
+    def _local_trace(self, frame: Any, event: str, arg: Any) -> Any:
+        if event == "line" and not getattr(self.rt.tls, "observing", False) and self.prng.random() < self.q:
+            t = getattr(self.rt.tls, "t", 0)
+            if t in self.threads and self.state.get(t) == "running":
+                self.preemptions += 1
+                with self.cv:
+                    self.state[t] = "parked"
+                    self.turn = 0
+                    self.cv.notify_all()
+                    while self.turn != t and not self.abort:
+                        self.cv.wait()
+                    if self.abort:
+                        raise HarnessAbort("aborted")
+                    self.state[t] = "running"
+        return self._local_trace
+
+    def _task_main(self, t: int, ctx: contextvars.Context) -> None:
+        sys.settrace(self._global_trace)
+        try:
+            super()._task_main(t, ctx)
+        finally:
+            sys.settrace(None)
 
 
 class AsyncSched:
